@@ -21,12 +21,18 @@ def string_tables(prog, units=None):
             init = g.get("init")
             if init and init[0] == "il":
                 vals = []
-                for x in init[1]:
-                    x = strip(x)
-                    if isinstance(x, list) and x and x[0] == "s":
-                        vals.append(x[1])
-                    elif isinstance(x, list) and x and x[0] == "n":
-                        vals.append(None)
+
+                def collect(items, depth=0):
+                    # arrays of strings and arrays of records with string members ({"XL", READ_BASIS_XL}, ...)
+                    for x in items:
+                        x = strip(x)
+                        if isinstance(x, list) and x and x[0] == "s":
+                            vals.append(x[1])
+                        elif isinstance(x, list) and x and x[0] == "n":
+                            vals.append(None)
+                        elif isinstance(x, list) and x and x[0] == "il" and depth < 3:
+                            collect(x[1], depth + 1)
+                collect(init[1])
                 if vals and any(v is not None for v in vals):
                     out[name] = vals
     return out
